@@ -18,6 +18,7 @@ import NutsModel.C19.Ambassador
 import NutsModel.C19.HttpCache
 import NutsModel.C19.Cred
 import NutsModel.C19.CredMore
+import NutsModel.C19.JsonLd
 import NutsModel.C19.Jwx
 namespace Nuts.C19.Sites
 open Nuts
@@ -442,8 +443,8 @@ def expected : List (String × List Entry) := [
     ⟨"lencheck:len(signatures) != 1", .total "guard of signatures[0] (Jwx.Cfg.jwsSigGuard)"⟩,
     ⟨"index:signatures[0]", .site "ParseJWS:signatures[0]"⟩]),
   ("jsonld/ldutils.go:LDUtil.Canonicalize", [
-    ⟨"defer:recoverProcessorPanic", .sampled "verifier.VerifyVP"⟩,
-    ⟨"discard:json.Marshal(input)", .sampled "verifier.VerifyVP"⟩]),
+    ⟨"defer:recoverProcessorPanic", .total "GUARD of the json-gold processor (JsonLd.Cfg.canonicalize, derived from Facts.jsonldProcessorCallers / jsonldRecoverers); without a DIRECT recover: site Canonicalize>ld"⟩,
+    ⟨"discard:json.Marshal(input)", .total "a marshal error leaves nil bytes: json.Unmarshal then fails (In.jsonOk = false)"⟩]),
   ("vdr/didnuts/validators.go:verificationMethodValidator.Validate", [
     ⟨"range:document.VerificationMethod", .sampled "didnuts.validate+findKeyByThumbprint"⟩]),
   ("vdr/didnuts/validators.go:verificationMethodValidator.verifyThumbprint", [
@@ -644,6 +645,18 @@ def credMoreCfg : CredMore.Cfg :=
     nilMapGuard := has "vcr/credential/util.go:AutoCorrectSelfAttestedCredential" "nilcheck:credentialSubject[0] == nil"
     subjLenExact := has "vcr/credential/util.go:AutoCorrectSelfAttestedCredential" "lencheck:len(credentialSubject) == 1"
     emptyMethodsPass := has "vcr/credential/util.go:FilterOnDIDMethod" "lencheck:len(didMethods) == 0" }
+
+def jsonldGuard (key : String) : JsonLd.Guard :=
+  match Facts.C19.jsonldProcessorCallers.find? (fun p => p.1 == key) with
+  | some p => JsonLd.guardOf Facts.C19.jsonldRecoverers p.2
+  | none => .absent
+
+def jsonldCfg : JsonLd.Cfg :=
+  { canonicalize := jsonldGuard "jsonld/ldutils.go:LDUtil.Canonicalize"
+    readBytes := jsonldGuard "jsonld/reader.go:Reader.ReadBytes"
+    allFieldsDefined := jsonldGuard "jsonld/jsonld.go:AllFieldsDefined"
+    noOtherCaller := Facts.C19.jsonldProcessorCallers.map (·.1) ==
+      ["jsonld/jsonld.go:AllFieldsDefined", "jsonld/ldutils.go:LDUtil.Canonicalize", "jsonld/reader.go:Reader.ReadBytes"] }
 
 def jwxCfg : Jwx.Cfg :=
   { kidAlgSigGuard := has "crypto/jwx.go:JWTKidAlg" "lencheck:len(j.Signatures()) != 1"
